@@ -170,7 +170,9 @@ macro_rules! case_body {
             Some(c.is_within_bounds())
         }
         fn within_a(c: &Alpha<Col, T>) -> Option<bool> {
-            Some(c.is_within_bounds())
+            // `Alpha<C, f32>` has no `IsWithinBounds` of its own (the impl asks for `T: IsWithinBounds`): this
+            // resolves through `Deref` to the color. The alpha component is judged separately (0..=1).
+            Some(c.color.is_within_bounds())
         }
         fn run(req: &Request, rng: &mut SimRng, sink: &mut dyn FnMut(Sample)) -> Ends {
             run_generic::<Col, T>(mk, get, within, req, rng, sink)
@@ -316,6 +318,12 @@ color_case!(luma, "Luma", "cartesian", LumaC, n: 1,
 color_case!(xyz, "Xyz", "cartesian", XyzC, n: 3,
     mk: |a| XyzC::<T>::new(a[0], a[1], a[2]), get: |c| [c.x, c.y, c.z],
     kinds: [Lin, Lin, Lin], dom: [(0.0, 0.95047), (0.0, 1.0), (0.0, 1.08883)], exact: [true, true, true]);
+/// A second white point: `Xyz`'s Standard distribution and its bounds both depend on `Wp::get_xyz()`, so
+/// a constant that should have been the white point only shows under another one.
+pub type XyzD50C<T> = palette::Xyz<palette::white_point::D50, T>;
+color_case!(xyz_d50, "Xyz<D50>", "cartesian", XyzD50C, n: 3,
+    mk: |a| XyzD50C::<T>::new(a[0], a[1], a[2]), get: |c| [c.x, c.y, c.z],
+    kinds: [Lin, Lin, Lin], dom: [(0.0, 0.96422), (0.0, 1.0), (0.0, 0.82521)], exact: [true, true, true]);
 color_case!(yxy, "Yxy", "cartesian", YxyC, n: 3,
     mk: |a| YxyC::<T>::new(a[0], a[1], a[2]), get: |c| [c.x, c.y, c.luma],
     kinds: [Lin, Lin, Lin], dom: [U, U, U], exact: [true, true, true]);
@@ -391,7 +399,7 @@ pub fn all_cases() -> Vec<&'static CaseDesc> {
         )+};
     }
     add!(
-        rgb, luma, xyz, yxy, lab, luv, oklab, lms, cam16ucsjab, lch, lchuv, oklch, cam16ucsjmh, hsv, okhsv, hsl,
+        rgb, luma, xyz, xyz_d50, yxy, lab, luv, oklab, lms, cam16ucsjab, lch, lchuv, oklch, cam16ucsjmh, hsv, okhsv, hsl,
         okhsl, hsluv, hwb, okhwb
     );
     for m in [&rgbhue::DESCS, &labhue::DESCS, &luvhue::DESCS, &oklabhue::DESCS, &cam16hue::DESCS] {
